@@ -50,11 +50,16 @@ Hash(c) ==
 Keep(c) ==
   CASE Len(c.vs) <= 1 -> TRUE
     [] Len(c.vs) = 2  -> Hash(c) % Mod2 = 0
-    [] OTHER          -> Hash(c) % Mod3 = 0
+    [] OTHER          -> TRUE
+
+\* three-value streams are built from a seeded slice of the value shapes (1 of Mod3)
+HV(v) == Len(v) * 7 + (IF Len(v) >= 1 THEN v[1] * 3 ELSE 0) + (IF Len(v) >= 2 THEN v[2] * 11 ELSE 0)
+Sub3 == {v \in ValShapes : (HV(v) + Salt) % Mod3 = 0}
+ShapesFor(n) == IF n >= 3 THEN Sub3 ELSE ValShapes
 
 Comps ==
   UNION {{[vs |-> vs, ss |-> ss, t |-> t, mode |-> m] :
-            vs \in [1..n -> ValShapes], ss \in [1..(n - 1) -> 1..2], t \in 1..2, m \in Modes} : n \in 1..MaxVals}
+            vs \in [1..n -> ShapesFor(n)], ss \in [1..(n - 1) -> 1..2], t \in 1..2, m \in Modes} : n \in 1..MaxVals}
 
 RECURSIVE BuildFrom(_, _)
 BuildFrom(c, i) ==
